@@ -326,6 +326,18 @@ class Flow:
         if name in env:
             return env[name]
         tgt = fr.fi.module.imports.get(name)
+        if not tgt:
+            # a module-level name bound once, at top level, to a literal: the literal (moving `1e-3` to
+            # DEFAULT_ERROR_RATE = 1e-3 changes nothing)
+            mod = fr.fi.module
+            binds = [n for n in ast.walk(mod.tree) if isinstance(n, (ast.Assign, ast.AnnAssign, ast.AugAssign)) and any(isinstance(x, ast.Name) and x.id == name and isinstance(x.ctx, ast.Store) for t in (n.targets if isinstance(n, ast.Assign) else [n.target]) for x in ast.walk(t))]
+            declared = any(isinstance(n, (ast.Global, ast.Nonlocal)) and name in n.names for n in ast.walk(mod.tree))
+            if len(binds) == 1 and binds[0] in mod.tree.body and isinstance(binds[0], (ast.Assign, ast.AnnAssign)) and not declared:
+                v = binds[0].value
+                if isinstance(v, ast.UnaryOp) and isinstance(v.op, ast.USub) and isinstance(v.operand, ast.Constant) and isinstance(v.operand.value, (int, float)):
+                    return ("const", -v.operand.value)
+                if isinstance(v, ast.Constant) and isinstance(v.value, (int, float, str, bool, type(None))):
+                    return ("const", v.value)
         return ("global", tgt or name)
 
     def ev(self, e, env, fr, loops, guards):
